@@ -1,11 +1,15 @@
 /-
-  C11 — bridge theorem to the kernels translated from the source (regenerated on every run):
-  the overlap test of `get_files_at_byte_range` used by the geometry model is the source's.
+  C11 — bridge theorems to the kernels translated from the source (regenerated on every run):
+  the overlap test of `get_files_at_byte_range`, the piece range of a file, the range check /
+  byte range / seek position / expected length of `get_piece`, and the index arithmetic of
+  `get_absolute_piece_indexes` / `get_relative_piece_indexes` used by the geometry model are the
+  source's expressions.  (`math.floor(a / b)` is translated to exact integer division — trusted
+  base of the translator: operands below 2^53, divisor positive.)
 -/
 import Torf.Generated.Kernels
 import Torf.Model.Geometry
 namespace Torf.C11
-open Torf Torf.Generated
+open Torf Torf.Generated Torf.Geometry
 
 theorem C11_kernel_byte_range (a b pos : Int) (s : Nat) :
     Torf.Geometry.rangeHit a b pos s = byteRangeCond a b pos (byteRangeFileLast pos s) := by
@@ -14,5 +18,47 @@ theorem C11_kernel_byte_range (a b pos : Int) (s : Nat) :
     | rfl
     | (rw [Bool.eq_iff_iff]
        simp only [Bool.or_eq_true, Bool.and_eq_true, decide_eq_true_eq] <;> omega)
+
+/-- `get_piece_indexes_of_file`: first and last piece of a file at stream position `pos` -/
+theorem C11_kernel_file_pieces (pos sz L : Nat) :
+    floorDiv (pos : Int) L = pifFirst pos L ∧
+    floorDiv ((pos : Int) + (sz : Int) - 1) L = pifLast pos sz L := by
+  unfold floorDiv pifFirst pifLast
+  exact ⟨rfl, rfl⟩
+
+/-- `get_piece`: the greatest piece index and the range check -/
+theorem C11_kernel_piece_range (T : Int) (L : Nat) (i : Int) :
+    floorDiv (T - 1) L = gpMaxPieceIndex T L ∧
+    (!(decide (0 ≤ i) && decide (i ≤ floorDiv (T - 1) L))) = gpOutOfRange 0 i (gpMaxPieceIndex T L) := by
+  unfold floorDiv gpMaxPieceIndex gpOutOfRange
+  exact ⟨rfl, rfl⟩
+
+/-- `get_piece`: first and last byte of the piece, where to seek in the first relevant file, and
+    the length the last piece must have -/
+theorem C11_kernel_piece_bytes (T : Int) (L : Nat) (i p sz : Int) :
+    i * (L : Int) = gpFirstByte i L ∧
+    min (i * (L : Int) + (L : Int) - 1) (T - 1) = gpLastByte (gpFirstByte i L) L T ∧
+    i * (L : Int) - p = gpSeekSingle (gpFirstByte i L) p ∧
+    sz - ((p + sz) % (L : Int)) = gpSeekMulti sz p L ∧
+    T % (L : Int) = gpLastPieceSize T L := by
+  unfold gpFirstByte gpLastByte gpSeekSingle gpSeekMulti gpLastPieceSize
+  exact ⟨rfl, rfl, rfl, rfl, rfl⟩
+
+/-- the clamping step of `get_absolute_piece_indexes`:
+    `if pi_rel < 0: pi_rel = pi_rel_max - abs(pi_rel) + 1; pi_rel = max(0, min(pi_rel_max, pi_rel))`,
+    then `pi_abs_min + pi_rel`, with `pi_rel_max = pi_abs_max - pi_abs_min` -/
+theorem C11_kernel_absolute (absMin absMax r : Int) :
+    absMin + clampRel (absMax - absMin) r =
+      absToAbs absMin (absClamp 0 (absRelMax absMax absMin)
+        (if r < 0 then absFromEnd (absRelMax absMax absMin) r else r)) := by
+  unfold clampRel absToAbs absClamp absRelMax absFromEnd
+  rfl
+
+/-- the same step in `get_relative_piece_indexes`, with `max_piece_index = floor((size-1)/piece_size)` -/
+theorem C11_kernel_relative (fileSize L : Nat) (r : Int) :
+    clampRel (floorDiv ((fileSize : Int) - 1) L) r =
+      relClamp 0 (relMax fileSize L) (if r < 0 then relFromEnd (relMax fileSize L) r else r) := by
+  unfold clampRel relClamp relMax relFromEnd floorDiv
+  rfl
 
 end Torf.C11
